@@ -14,6 +14,7 @@
 #include "scheme.h"
 #include "tree_instance.h"
 #include "version.h"
+#include "verif_hooks.h"
 
 #include "glog/logging.h"
 
@@ -122,21 +123,25 @@ public:
 
     [[nodiscard]] const std::array<key_length_type, key_slice_length>&
     get_key_length_ref() const {
+        YK_VP(YK_LOAD, YK_C_TREE, &key_length_);
         return key_length_;
     }
 
     [[nodiscard]] key_length_type
     get_key_length_at(const std::size_t index) const {
+        YK_VP(YK_LOAD, YK_C_TREE, &key_length_.at(index));
         return key_length_.at(index);
     }
 
     [[nodiscard]] const std::array<key_slice_type, key_slice_length>&
     get_key_slice_ref() const {
+        YK_VP(YK_LOAD, YK_C_TREE, &key_slice_);
         return key_slice_;
     }
 
     [[nodiscard]] key_slice_type
     get_key_slice_at(const std::size_t index) const {
+        YK_VP(YK_LOAD, YK_C_TREE, &key_slice_.at(index));
         return key_slice_.at(index);
     }
 
@@ -222,6 +227,7 @@ public:
                 base_node* check = ti->load_root_ptr();
                 if (this == check) { return nullptr; }
                 ti->root_unlock();
+                YK_WAIT(YK_W_RETRY, nullptr);
                 continue;
             }
             p->lock();
@@ -288,9 +294,11 @@ public:
 
     void shift_left_base_member(const std::size_t start_pos,
                                 const std::size_t shift_size) {
+        YK_VP(YK_PLAINW, YK_C_TREE, &key_slice_);
         memmove(&key_slice_.at(start_pos - shift_size),
                 &key_slice_.at(start_pos),
                 sizeof(key_slice_type) * (key_slice_length - start_pos));
+        YK_VP(YK_PLAINW, YK_C_TREE, &key_length_);
         memmove(&key_length_.at(start_pos - shift_size),
                 &key_length_.at(start_pos),
                 sizeof(key_length_type) * (key_slice_length - start_pos));
@@ -298,9 +306,11 @@ public:
 
     void shift_right_base_member(const std::size_t start,
                                  const std::size_t shift_size) {
+        YK_VP(YK_PLAINW, YK_C_TREE, &key_slice_);
         memmove(&key_slice_.at(start + shift_size), &key_slice_.at(start),
                 sizeof(key_slice_type) *
                         (key_slice_length - start - shift_size));
+        YK_VP(YK_PLAINW, YK_C_TREE, &key_length_);
         memmove(&key_length_.at(start + shift_size), &key_length_.at(start),
                 sizeof(key_length_type) *
                         (key_slice_length - start - shift_size));
